@@ -197,16 +197,32 @@ type importerFunc func(path string) (*types.Package, error)
 func (f importerFunc) Import(path string) (*types.Package, error) { return f(path) }
 
 type helperCand struct {
-	decl    *ast.FuncDecl
+	decl    *ast.FuncDecl // nil for a function literal bound to a local variable
+	node    ast.Node      // the FuncDecl or FuncLit
+	ftype   *ast.FuncType
+	body    *ast.BlockStmt
+	recv    *ast.FieldList
+	sig     *types.Signature
 	file    *srcFile
 	obj     *types.Func
 	key     string
 	keep    bool // some use could not be inlined: keep the declaration
 	inlined int
+	// hasDefer: the body defers; such a helper is inlined only where its return coincides with the
+	// caller's (a call statement in tail position), or as a function literal under defer/go
+	hasDefer bool
 }
 
 // eligibleHelper: structural conditions on the helper itself.
 func eligibleHelper(d *ast.FuncDecl, info *types.Info, obj *types.Func) (bool, string) {
+	return eligibleFunc(d.Type, d.Recv, d.Body, info, obj)
+}
+
+// eligibleFunc: the same conditions for a declaration or a function literal (self: the object through
+// which the function would call itself).
+func eligibleFunc(ftype *ast.FuncType, recv *ast.FieldList, body *ast.BlockStmt, info *types.Info, self types.Object) (bool, string) {
+	d := &ast.FuncDecl{Type: ftype, Recv: recv, Body: body}
+	obj := self
 	if d.Type.TypeParams != nil && len(d.Type.TypeParams.List) > 0 {
 		return false, "type parameters"
 	}
@@ -230,6 +246,7 @@ func eligibleHelper(d *ast.FuncDecl, info *types.Info, obj *types.Func) (bool, s
 		}
 	}
 	bad := ""
+	hasDefer := false
 	namedBlank := false
 	if d.Type.Results != nil {
 		for _, f := range d.Type.Results.List {
@@ -245,7 +262,7 @@ func eligibleHelper(d *ast.FuncDecl, info *types.Info, obj *types.Func) (bool, s
 		case *ast.FuncLit:
 			return false
 		case *ast.DeferStmt:
-			bad = "defer"
+			hasDefer = true
 		case *ast.LabeledStmt:
 			bad = "label"
 		case *ast.BranchStmt:
@@ -263,7 +280,7 @@ func eligibleHelper(d *ast.FuncDecl, info *types.Info, obj *types.Func) (bool, s
 				}
 			}
 		case *ast.Ident:
-			if info.Uses[x] == types.Object(obj) {
+			if obj != nil && info.Uses[x] == obj {
 				bad = "recursive"
 			}
 		}
@@ -271,6 +288,9 @@ func eligibleHelper(d *ast.FuncDecl, info *types.Info, obj *types.Func) (bool, s
 	})
 	if bad != "" {
 		return false, bad
+	}
+	if hasDefer {
+		return true, "defer"
 	}
 	return true, ""
 }
@@ -341,18 +361,16 @@ func inlineRound(sp *srcPkg, res *inlineResult, round int) (bool, error) {
 			if knownHelpers[key] {
 				continue
 			}
-			if ok, why := eligibleHelper(fd, info, obj); !ok {
+			ok, why := eligibleHelper(fd, info, obj)
+			if !ok {
 				if round == 0 {
 					res.Skipped = append(res.Skipped, key+": "+why)
 				}
 				continue
 			}
-			cands[obj] = &helperCand{decl: fd, file: f, obj: obj, key: key}
+			cands[obj] = &helperCand{decl: fd, node: fd, ftype: fd.Type, body: fd.Body, recv: fd.Recv, sig: obj.Type().(*types.Signature), file: f, obj: obj, key: key, hasDefer: why == "defer"}
 			candDecl[fd] = true
 		}
-	}
-	if len(cands) == 0 {
-		return false, nil
 	}
 	edits := map[*srcFile][]textEdit{}
 	addImports := map[*srcFile]map[string]string{}
@@ -416,6 +434,12 @@ func inlineRound(sp *srcPkg, res *inlineResult, round int) (bool, error) {
 			}
 			c.inlined++
 			res.Notes = append(res.Notes, inlineNote{Helper: c.key, Into: encl.Name.Name, At: sp.posStr(call.Pos())})
+		}
+	}
+	// calls of function literals bound to local variables (`f := func(...) {...}; ...; f(x)`)
+	if len(edits) == 0 {
+		for _, f := range sp.files {
+			sp.inlineLiteralCalls(f, res, edits, addImports, usedStmt)
 		}
 	}
 	changed := false
@@ -486,7 +510,7 @@ func containsNode(outer, inner ast.Node) bool {
 func (sp *srcPkg) inlineSite(f *srcFile, c *helperCand, call *ast.CallExpr, sel *ast.SelectorExpr, parents map[ast.Node]ast.Node,
 	edits map[*srcFile][]textEdit, addImports map[*srcFile]map[string]string, usedStmt map[ast.Node]bool) (bool, string) {
 	info := sp.info
-	sig := c.obj.Type().(*types.Signature)
+	sig := c.sig
 	if call.Ellipsis.IsValid() {
 		return false, "spread call"
 	}
@@ -506,6 +530,43 @@ func (sp *srcPkg) inlineSite(f *srcFile, c *helperCand, call *ast.CallExpr, sel 
 	}
 	if stmt == nil {
 		return false, "not in a statement"
+	}
+	// defer helper(args) / go helper(args): the helper becomes a function literal with the same
+	// parameters, called with the same operands (evaluated at the defer/go statement as before)
+	switch ds := stmt.(type) {
+	case *ast.DeferStmt:
+		if ds.Call == call {
+			return sp.inlineAsLiteral(f, c, call, sel, edits, addImports, usedStmt, stmt)
+		}
+	case *ast.GoStmt:
+		if ds.Call == call {
+			return sp.inlineAsLiteral(f, c, call, sel, edits, addImports, usedStmt, stmt)
+		}
+	}
+	if c.hasDefer {
+		// only where the helper's return is the caller's return: a call statement that is the last
+		// statement of the function body (or is followed by a bare return only)
+		es, isES := stmt.(*ast.ExprStmt)
+		fd := enclosingFuncDecl(parents, stmt)
+		if !isES || es.X != ast.Expr(call) || fd == nil || parents[stmt] != ast.Node(fd.Body) {
+			return false, "helper with defer: not a tail call statement"
+		}
+		list := fd.Body.List
+		pos := -1
+		for i, s := range list {
+			if s == stmt {
+				pos = i
+			}
+		}
+		tail := pos == len(list)-1
+		if pos == len(list)-2 {
+			if r, isRet := list[pos+1].(*ast.ReturnStmt); isRet && len(r.Results) == 0 {
+				tail = true
+			}
+		}
+		if !tail {
+			return false, "helper with defer: not a tail call statement"
+		}
 	}
 	// conditional evaluation / other calls first
 	for x := ast.Node(call); x != ast.Node(stmt); x = parents[x] {
@@ -648,57 +709,7 @@ func (sp *srcPkg) inlineSite(f *srcFile, c *helperCand, call *ast.CallExpr, sel 
 	}
 	// ---- identifier resolution at the call site
 	hfile := c.file
-	callerScope := sp.pkg.Scope().Innermost(call.Pos())
-	if callerScope == nil {
-		return false, "no scope at call site"
-	}
-	needImport := map[string]string{}
-	bad := ""
-	checkIdent := func(id *ast.Ident) {
-		obj := info.Uses[id]
-		if obj == nil || bad != "" {
-			return
-		}
-		switch o := obj.(type) {
-		case *types.PkgName:
-			_, found := callerScope.LookupParent(id.Name, call.Pos())
-			if found == nil {
-				needImport[id.Name] = o.Imported().Path()
-				return
-			}
-			if pn, ok := found.(*types.PkgName); !ok || pn.Imported().Path() != o.Imported().Path() {
-				bad = "identifier " + id.Name + " resolves differently at the call site"
-			}
-			return
-		}
-		ps := obj.Parent()
-		if ps == nil {
-			return // field or method
-		}
-		if ps != sp.pkg.Scope() && ps != types.Universe {
-			return // local to the helper
-		}
-		_, found := callerScope.LookupParent(id.Name, call.Pos())
-		if found != obj {
-			bad = "identifier " + id.Name + " is shadowed at the call site"
-		}
-	}
-	ast.Inspect(c.decl, func(n ast.Node) bool {
-		switch x := n.(type) {
-		case *ast.Ident:
-			checkIdent(x)
-		case *ast.SelectorExpr:
-			// only the qualifier can be a free identifier
-			ast.Inspect(x.X, func(m ast.Node) bool {
-				if id, ok := m.(*ast.Ident); ok {
-					checkIdent(id)
-				}
-				return true
-			})
-			return false
-		}
-		return true
-	})
+	needImport, bad := sp.identifiersResolveAt(c, call)
 	if bad != "" {
 		return false, bad
 	}
@@ -708,7 +719,7 @@ func (sp *srcPkg) inlineSite(f *srcFile, c *helperCand, call *ast.CallExpr, sel 
 	var pre, inner strings.Builder
 	htext := func(from, to token.Pos) string { return sp.text(hfile, from, to) }
 	ctext := func(from, to token.Pos) string { return sp.text(f, from, to) }
-	if c.decl.Recv != nil {
+	if c.recv != nil {
 		if sel == nil {
 			return false, "method called without selector"
 		}
@@ -716,7 +727,7 @@ func (sp *srcPkg) inlineSite(f *srcFile, c *helperCand, call *ast.CallExpr, sel 
 		if s == nil || s.Kind() != types.MethodVal || len(s.Index()) != 1 {
 			return false, "promoted or indirect method selection"
 		}
-		rf := c.decl.Recv.List[0]
+		rf := c.recv.List[0]
 		_, recvPtr := sig.Recv().Type().(*types.Pointer)
 		_, xPtr := info.TypeOf(sel.X).Underlying().(*types.Pointer)
 		rx := ctext(sel.X.Pos(), sel.X.End())
@@ -726,15 +737,19 @@ func (sp *srcPkg) inlineSite(f *srcFile, c *helperCand, call *ast.CallExpr, sel 
 		case !recvPtr && xPtr:
 			rx = "*(" + rx + ")"
 		}
-		fmt.Fprintf(&pre, "var %s_recv %s = %s; _ = %s_recv; ", pfx, htext(rf.Type.Pos(), rf.Type.End()), rx, pfx)
-		if len(rf.Names) == 1 && rf.Names[0].Name != "_" {
-			fmt.Fprintf(&inner, "%s := %s_recv; _ = %s; ", rf.Names[0].Name, pfx, rf.Names[0].Name)
+		if len(rf.Names) == 1 && sp.canElide(c, rf.Names[0], sel.X) {
+			// same name, same type, never assigned or captured in the body: the body can use the caller's variable
+		} else {
+			fmt.Fprintf(&pre, "var %s_recv %s = %s; _ = %s_recv; ", pfx, htext(rf.Type.Pos(), rf.Type.End()), rx, pfx)
+			if len(rf.Names) == 1 && rf.Names[0].Name != "_" {
+				fmt.Fprintf(&inner, "%s := %s_recv; _ = %s; ", rf.Names[0].Name, pfx, rf.Names[0].Name)
+			}
 		}
 	}
 	// ---- parameters
 	ai := 0
-	if c.decl.Type.Params != nil {
-		for _, fld := range c.decl.Type.Params.List {
+	if c.ftype.Params != nil {
+		for _, fld := range c.ftype.Params.List {
 			tt := htext(fld.Type.Pos(), fld.Type.End())
 			names := fld.Names
 			if len(names) == 0 {
@@ -742,6 +757,10 @@ func (sp *srcPkg) inlineSite(f *srcFile, c *helperCand, call *ast.CallExpr, sel 
 			}
 			for _, n := range names {
 				a := call.Args[ai]
+				if n != nil && sp.canElide(c, n, a) {
+					ai++
+					continue
+				}
 				fmt.Fprintf(&pre, "var %s_p%d %s = %s; _ = %s_p%d; ", pfx, ai, tt, ctext(a.Pos(), a.End()), pfx, ai)
 				if n != nil && n.Name != "_" {
 					fmt.Fprintf(&inner, "%s := %s_p%d; _ = %s; ", n.Name, pfx, ai, n.Name)
@@ -754,8 +773,8 @@ func (sp *srcPkg) inlineSite(f *srcFile, c *helperCand, call *ast.CallExpr, sel 
 	var resNames []string // helper's named results
 	var resVars []string
 	ri := 0
-	if c.decl.Type.Results != nil {
-		for _, fld := range c.decl.Type.Results.List {
+	if c.ftype.Results != nil {
+		for _, fld := range c.ftype.Results.List {
 			tt := htext(fld.Type.Pos(), fld.Type.End())
 			names := fld.Names
 			if len(names) == 0 {
@@ -777,7 +796,7 @@ func (sp *srcPkg) inlineSite(f *srcFile, c *helperCand, call *ast.CallExpr, sel 
 	}
 	// ---- body with returns rewritten
 	var rets []*ast.ReturnStmt
-	ast.Inspect(c.decl.Body, func(n ast.Node) bool {
+	ast.Inspect(c.body, func(n ast.Node) bool {
 		switch x := n.(type) {
 		case *ast.FuncLit:
 			return false
@@ -787,8 +806,8 @@ func (sp *srcPkg) inlineSite(f *srcFile, c *helperCand, call *ast.CallExpr, sel 
 		return true
 	})
 	var tail *ast.ReturnStmt
-	if n := len(c.decl.Body.List); n > 0 {
-		tail, _ = c.decl.Body.List[n-1].(*ast.ReturnStmt)
+	if n := len(c.body.List); n > 0 {
+		tail, _ = c.body.List[n-1].(*ast.ReturnStmt)
 	}
 	needLabel := false
 	for _, r := range rets {
@@ -797,7 +816,7 @@ func (sp *srcPkg) inlineSite(f *srcFile, c *helperCand, call *ast.CallExpr, sel 
 		}
 	}
 	label := pfx + "_end"
-	bodyStart, bodyEnd := c.decl.Body.Lbrace+1, c.decl.Body.Rbrace
+	bodyStart, bodyEnd := c.body.Lbrace+1, c.body.Rbrace
 	var body strings.Builder
 	cur := bodyStart
 	sort.Slice(rets, func(i, j int) bool { return rets[i].Pos() < rets[j].Pos() })
@@ -886,6 +905,460 @@ func simpleOperand(e ast.Expr) bool {
 		return simpleOperand(x.X)
 	case *ast.StarExpr:
 		return simpleOperand(x.X)
+	case *ast.BasicLit:
+		return true
+	case *ast.IndexExpr:
+		// operands of an index expression on the left are plain reads; the bounds check happens in
+		// the assignment phase, after the right-hand side has been evaluated
+		return simpleOperand(x.X) && simpleOperand(x.Index)
 	}
 	return false
+}
+
+func enclosingFuncDecl(parents map[ast.Node]ast.Node, n ast.Node) *ast.FuncDecl {
+	for x := n; x != nil; x = parents[x] {
+		if fd, ok := x.(*ast.FuncDecl); ok {
+			return fd
+		}
+		if _, isLit := x.(*ast.FuncLit); isLit && x != n {
+			return nil
+		}
+	}
+	return nil
+}
+
+// identifiersResolveAt: every free identifier of the helper resolves to the same object at the call site.
+func (sp *srcPkg) identifiersResolveAt(c *helperCand, call *ast.CallExpr) (map[string]string, string) {
+	info := sp.info
+	callerScope := sp.pkg.Scope().Innermost(call.Pos())
+	if callerScope == nil {
+		return nil, "no scope at call site"
+	}
+	needImport := map[string]string{}
+	bad := ""
+	checkIdent := func(id *ast.Ident) {
+		obj := info.Uses[id]
+		if obj == nil || bad != "" {
+			return
+		}
+		if o, isPkg := obj.(*types.PkgName); isPkg {
+			_, found := callerScope.LookupParent(id.Name, call.Pos())
+			if found == nil {
+				needImport[id.Name] = o.Imported().Path()
+				return
+			}
+			if pn, ok := found.(*types.PkgName); !ok || pn.Imported().Path() != o.Imported().Path() {
+				bad = "identifier " + id.Name + " resolves differently at the call site"
+			}
+			return
+		}
+		if obj.Parent() == nil {
+			return // field or method
+		}
+		if obj.Pos() >= c.node.Pos() && obj.Pos() < c.node.End() {
+			return // declared inside the helper
+		}
+		if _, found := callerScope.LookupParent(id.Name, call.Pos()); found != obj {
+			bad = "identifier " + id.Name + " is shadowed at the call site"
+		}
+	}
+	ast.Inspect(c.node, func(n ast.Node) bool {
+		switch x := n.(type) {
+		case *ast.Ident:
+			checkIdent(x)
+		case *ast.SelectorExpr:
+			ast.Inspect(x.X, func(m ast.Node) bool {
+				if id, ok := m.(*ast.Ident); ok {
+					checkIdent(id)
+				}
+				return true
+			})
+			return false
+		}
+		return true
+	})
+	return needImport, bad
+}
+
+// inlineAsLiteral rewrites `defer recv.helper(args)` into `defer func(recv R, params) results { body }(recv, args)`.
+func (sp *srcPkg) inlineAsLiteral(f *srcFile, c *helperCand, call *ast.CallExpr, sel *ast.SelectorExpr,
+	edits map[*srcFile][]textEdit, addImports map[*srcFile]map[string]string, usedStmt map[ast.Node]bool, stmt ast.Stmt) (bool, string) {
+	info := sp.info
+	sig := c.sig
+	if call.Ellipsis.IsValid() || len(call.Args) != sig.Params().Len() {
+		return false, "spread call"
+	}
+	if usedStmt[stmt] {
+		return false, "statement already rewritten in this round"
+	}
+	needImport, bad := sp.identifiersResolveAt(c, call)
+	if bad != "" {
+		return false, bad
+	}
+	hfile := c.file
+	htext := func(from, to token.Pos) string { return sp.text(hfile, from, to) }
+	ctext := func(from, to token.Pos) string { return sp.text(f, from, to) }
+	var params, args []string
+	if c.recv != nil {
+		if sel == nil {
+			return false, "method called without selector"
+		}
+		s := info.Selections[sel]
+		if s == nil || s.Kind() != types.MethodVal || len(s.Index()) != 1 {
+			return false, "promoted or indirect method selection"
+		}
+		rf := c.recv.List[0]
+		_, recvPtr := sig.Recv().Type().(*types.Pointer)
+		_, xPtr := info.TypeOf(sel.X).Underlying().(*types.Pointer)
+		rx := ctext(sel.X.Pos(), sel.X.End())
+		switch {
+		case recvPtr && !xPtr:
+			rx = "&(" + rx + ")"
+		case !recvPtr && xPtr:
+			rx = "*(" + rx + ")"
+		}
+		name := "_"
+		if len(rf.Names) == 1 {
+			name = rf.Names[0].Name
+		}
+		params = append(params, name+" "+htext(rf.Type.Pos(), rf.Type.End()))
+		args = append(args, rx)
+	}
+	ai := 0
+	if c.ftype.Params != nil {
+		for _, fld := range c.ftype.Params.List {
+			tt := htext(fld.Type.Pos(), fld.Type.End())
+			names := fld.Names
+			if len(names) == 0 {
+				names = []*ast.Ident{nil}
+			}
+			for _, n := range names {
+				name := "_"
+				if n != nil {
+					name = n.Name
+				}
+				params = append(params, name+" "+tt)
+				a := call.Args[ai]
+				args = append(args, ctext(a.Pos(), a.End()))
+				ai++
+			}
+		}
+	}
+	results := ""
+	if c.ftype.Results != nil {
+		results = " " + htext(c.ftype.Results.Pos(), c.ftype.Results.End())
+	}
+	lit := "func(" + strings.Join(params, ", ") + ")" + results + " {" + sp.lineDirective(c.body.Lbrace+1) +
+		htext(c.body.Lbrace+1, c.body.Rbrace) + "}(" + strings.Join(args, ", ") + ")" + sp.lineDirective(call.End())
+	edits[f] = append(edits[f], textEdit{sp.off(call.Pos()), sp.off(call.End()), lit})
+	usedStmt[stmt] = true
+	if len(needImport) > 0 {
+		if addImports[f] == nil {
+			addImports[f] = map[string]string{}
+		}
+		for n, p := range needImport {
+			addImports[f][n] = p
+		}
+	}
+	return true, ""
+}
+
+// canElide: the parameter (or receiver) named by pn can be left unbound, the body using the caller's
+// variable of the same name directly: the argument is that plain variable, of identical type, and the
+// body neither assigns the parameter, nor takes its address, nor captures it in a function literal
+// (a copy and the original would then be distinguishable).
+func (sp *srcPkg) canElide(c *helperCand, pn *ast.Ident, arg ast.Expr) bool {
+	if pn == nil || pn.Name == "_" {
+		return false
+	}
+	id, ok := arg.(*ast.Ident)
+	if !ok || id.Name != pn.Name {
+		return false
+	}
+	info := sp.info
+	av, isVar := info.Uses[id].(*types.Var)
+	pobj, _ := info.Defs[pn].(*types.Var)
+	if !isVar || pobj == nil || av.IsField() || av.Parent() == sp.pkg.Scope() {
+		return false
+	}
+	if !types.Identical(av.Type(), pobj.Type()) {
+		return false
+	}
+	ok = true
+	refersTo := func(e ast.Expr) bool {
+		for {
+			switch x := e.(type) {
+			case *ast.ParenExpr:
+				e = x.X
+				continue
+			case *ast.Ident:
+				return info.Uses[x] == types.Object(pobj)
+			}
+			return false
+		}
+	}
+	var inLit int
+	var walk func(n ast.Node) bool
+	walk = func(n ast.Node) bool {
+		switch x := n.(type) {
+		case *ast.FuncLit:
+			inLit++
+			ast.Inspect(x.Body, walk)
+			inLit--
+			return false
+		case *ast.Ident:
+			if inLit > 0 && info.Uses[x] == types.Object(pobj) {
+				ok = false
+			}
+		case *ast.AssignStmt:
+			for _, l := range x.Lhs {
+				if refersTo(l) {
+					ok = false
+				}
+			}
+		case *ast.IncDecStmt:
+			if refersTo(x.X) {
+				ok = false
+			}
+		case *ast.UnaryExpr:
+			if x.Op == token.AND && refersTo(x.X) {
+				ok = false
+			}
+		case *ast.RangeStmt:
+			if (x.Key != nil && refersTo(x.Key)) || (x.Value != nil && refersTo(x.Value)) {
+				ok = false
+			}
+		}
+		return true
+	}
+	ast.Inspect(c.body, walk)
+	return ok
+}
+
+// inlineLiteralCalls: a local variable that is defined once, never reassigned or address-taken, and
+// whose value is a function literal (possibly through copies of such variables) is a name for that
+// literal: its calls are inlined like calls of a new helper.  The variable keeps its definition (a
+// blank use is added so that it does not become unused).
+func (sp *srcPkg) inlineLiteralCalls(f *srcFile, res *inlineResult, edits map[*srcFile][]textEdit, addImports map[*srcFile]map[string]string, usedStmt map[ast.Node]bool) {
+	info := sp.info
+	parents := buildParents(f.ast)
+	type def struct {
+		stmt ast.Node
+		rhs  ast.Expr
+	}
+	defs := map[*types.Var]def{}
+	tainted := map[*types.Var]bool{}
+	varOf := func(e ast.Expr) *types.Var {
+		for {
+			if pe, ok := e.(*ast.ParenExpr); ok {
+				e = pe.X
+				continue
+			}
+			break
+		}
+		id, ok := e.(*ast.Ident)
+		if !ok {
+			return nil
+		}
+		if v, ok := info.Defs[id].(*types.Var); ok {
+			return v
+		}
+		v, _ := info.Uses[id].(*types.Var)
+		return v
+	}
+	ast.Inspect(f.ast, func(n ast.Node) bool {
+		switch x := n.(type) {
+		case *ast.AssignStmt:
+			if x.Tok == token.DEFINE && len(x.Lhs) == 1 && len(x.Rhs) == 1 {
+				if id, ok := x.Lhs[0].(*ast.Ident); ok {
+					if v, ok := info.Defs[id].(*types.Var); ok && v != nil {
+						defs[v] = def{x, x.Rhs[0]}
+						return true
+					}
+				}
+			}
+			for _, l := range x.Lhs {
+				if v := varOf(l); v != nil {
+					tainted[v] = true
+				}
+			}
+		case *ast.ValueSpec:
+			if len(x.Names) == 1 && len(x.Values) == 1 {
+				if v, ok := info.Defs[x.Names[0]].(*types.Var); ok && v != nil {
+					if ds, isDS := parents[parents[x]].(*ast.DeclStmt); isDS {
+						defs[v] = def{ds, x.Values[0]}
+					}
+				}
+			}
+		case *ast.IncDecStmt:
+			if v := varOf(x.X); v != nil {
+				tainted[v] = true
+			}
+		case *ast.UnaryExpr:
+			if x.Op == token.AND {
+				if v := varOf(x.X); v != nil {
+					tainted[v] = true
+				}
+			}
+		case *ast.RangeStmt:
+			for _, e := range []ast.Expr{x.Key, x.Value} {
+				if e != nil {
+					if v := varOf(e); v != nil {
+						tainted[v] = true
+					}
+				}
+			}
+		}
+		return true
+	})
+	resolve := func(v *types.Var) (*ast.FuncLit, bool) {
+		for i := 0; i < 4; i++ {
+			d, ok := defs[v]
+			if !ok || tainted[v] || v.Parent() == sp.pkg.Scope() {
+				return nil, false
+			}
+			switch r := d.rhs.(type) {
+			case *ast.FuncLit:
+				return r, true
+			case *ast.Ident:
+				nv, _ := info.Uses[r].(*types.Var)
+				if nv == nil {
+					return nil, false
+				}
+				v = nv
+			default:
+				return nil, false
+			}
+		}
+		return nil, false
+	}
+	// literals that are no longer called (all their calls were inlined in an earlier round): a variable
+	// whose only uses are blank assignments, or definitions of variables that are dead in the same way,
+	// holds a dead literal; it is replaced by a typed nil so that it stops capturing variables
+	uses := map[*types.Var][]*ast.Ident{}
+	for id, obj := range info.Uses {
+		if v, ok := obj.(*types.Var); ok {
+			if _, isDef := defs[v]; isDef && id.Pos() >= f.ast.Pos() && id.End() <= f.ast.End() {
+				uses[v] = append(uses[v], id)
+			}
+		}
+	}
+	var isDead func(v *types.Var, depth int) bool
+	isDead = func(v *types.Var, depth int) bool {
+		if depth > 4 || tainted[v] || v.Parent() == sp.pkg.Scope() {
+			return false
+		}
+		for _, id := range uses[v] {
+			switch pn := parents[id].(type) {
+			case *ast.AssignStmt:
+				if pn.Tok == token.ASSIGN && len(pn.Lhs) == 1 && len(pn.Rhs) == 1 && pn.Rhs[0] == ast.Expr(id) {
+					if l, ok := pn.Lhs[0].(*ast.Ident); ok && l.Name == "_" {
+						continue
+					}
+				}
+				if pn.Tok == token.DEFINE && len(pn.Lhs) == 1 && len(pn.Rhs) == 1 && pn.Rhs[0] == ast.Expr(id) {
+					if l, ok := pn.Lhs[0].(*ast.Ident); ok {
+						if w, ok := info.Defs[l].(*types.Var); ok && w != nil && isDead(w, depth+1) {
+							continue
+						}
+					}
+				}
+				return false
+			case *ast.ValueSpec:
+				if len(pn.Names) == 1 && len(pn.Values) == 1 && pn.Values[0] == ast.Expr(id) {
+					if w, ok := info.Defs[pn.Names[0]].(*types.Var); ok && w != nil && isDead(w, depth+1) {
+						continue
+					}
+				}
+				return false
+			default:
+				return false
+			}
+		}
+		return true
+	}
+	var deadVars []*types.Var
+	for v, d := range defs {
+		if _, isLit := d.rhs.(*ast.FuncLit); isLit && len(uses[v]) > 0 && isDead(v, 0) {
+			deadVars = append(deadVars, v)
+		}
+	}
+	sort.Slice(deadVars, func(i, j int) bool { return deadVars[i].Pos() < deadVars[j].Pos() })
+	for _, v := range deadVars {
+		lit := defs[v].rhs.(*ast.FuncLit)
+		if fd := enclosingFuncDecl(parents, lit); fd == nil || fd.Name.Name == "_" {
+			continue
+		}
+		edits[f] = append(edits[f], textEdit{sp.off(lit.Pos()), sp.off(lit.End()), "(" + sp.text(f, lit.Type.Pos(), lit.Type.End()) + ")(nil)" + sp.lineDirective(lit.End())})
+		res.Notes = append(res.Notes, inlineNote{Helper: "dead literal " + v.Name(), Into: "-", At: sp.posStr(lit.Pos())})
+	}
+	if len(deadVars) > 0 {
+		return
+	}
+	var calls []*ast.CallExpr
+	ast.Inspect(f.ast, func(n ast.Node) bool {
+		if c, ok := n.(*ast.CallExpr); ok {
+			if _, isId := c.Fun.(*ast.Ident); isId {
+				calls = append(calls, c)
+			}
+		}
+		return true
+	})
+	sort.Slice(calls, func(i, j int) bool { return calls[i].Pos() < calls[j].Pos() })
+	keepAlive := map[*types.Var]bool{}
+	for _, call := range calls {
+		id := call.Fun.(*ast.Ident)
+		v, _ := info.Uses[id].(*types.Var)
+		if v == nil {
+			continue
+		}
+		lit, ok := resolve(v)
+		if !ok {
+			continue
+		}
+		fd := enclosingFuncDecl(parents, call)
+		if fd == nil || fd.Name.Name == "_" {
+			continue // inside another literal, or dead code
+		}
+		// the literal must be defined in the same function and before the call
+		if enclosingFuncDecl(parents, lit) != fd || lit.End() > call.Pos() {
+			continue
+		}
+		sig, _ := info.TypeOf(lit).(*types.Signature)
+		if sig == nil {
+			continue
+		}
+		okE, why := eligibleFunc(lit.Type, nil, lit.Body, info, v)
+		key := "func literal " + v.Name() + " in " + fd.Name.Name
+		if !okE {
+			res.Skipped = append(res.Skipped, key+": "+why)
+			continue
+		}
+		c := &helperCand{node: lit, ftype: lit.Type, body: lit.Body, sig: sig, file: f, key: key, hasDefer: why == "defer"}
+		ok2, why2 := sp.inlineSite(f, c, call, nil, parents, edits, addImports, usedStmt)
+		if !ok2 {
+			res.Skipped = append(res.Skipped, fmt.Sprintf("%s at %s: %s", key, sp.posStr(call.Pos()), why2))
+			continue
+		}
+		res.Notes = append(res.Notes, inlineNote{Helper: key, Into: fd.Name.Name, At: sp.posStr(call.Pos())})
+		// every variable of the chain stays used
+		for x := v; x != nil; {
+			keepAlive[x] = true
+			d := defs[x]
+			nid, isId := d.rhs.(*ast.Ident)
+			if !isId {
+				break
+			}
+			x, _ = info.Uses[nid].(*types.Var)
+		}
+	}
+	var vars []*types.Var
+	for v := range keepAlive {
+		vars = append(vars, v)
+	}
+	sort.Slice(vars, func(i, j int) bool { return vars[i].Pos() < vars[j].Pos() })
+	for _, v := range vars {
+		d := defs[v]
+		edits[f] = append(edits[f], textEdit{sp.off(d.stmt.End()), sp.off(d.stmt.End()), "; _ = " + v.Name() + sp.lineDirective(d.stmt.End())})
+	}
 }
